@@ -50,6 +50,37 @@ def boot():
     if not path.startswith(os.path.realpath(REPO) + os.sep):
         raise RuntimeError(f"syne_tune imported from {path}, expected under {REPO}")
     logging.disable(logging.CRITICAL)
+    preimport()
+
+
+def preimport():
+    """Import in the parent what every forked run needs (children then pay nothing)."""
+    import contextlib
+    import io
+
+    with contextlib.redirect_stdout(io.StringIO()), contextlib.redirect_stderr(io.StringIO()):
+        import pandas  # noqa
+        import dill  # noqa
+        import syne_tune.optimizer.schedulers  # noqa
+        import syne_tune.optimizer.schedulers.synchronous  # noqa
+        import syne_tune.optimizer.schedulers.multiobjective  # noqa
+        import syne_tune.optimizer.schedulers.median_stopping_rule  # noqa
+        import syne_tune.optimizer.schedulers.searchers.regularized_evolution  # noqa
+        import syne_tune.backend.simulator_backend.simulator_callback  # noqa
+        import syne_tune.blackbox_repository  # noqa
+        import syne_tune.blackbox_repository.simulated_tabular_backend  # noqa
+        import syne_tune.callbacks.hyperband_remove_checkpoints_callback  # noqa
+        try:
+            import syne_tune.experiments  # noqa
+        except Exception:
+            pass
+        try:
+            import syne_tune.optimizer.schedulers.searchers.gp_fifo_searcher  # noqa
+            import syne_tune.optimizer.schedulers.searchers.gp_multifidelity_searcher  # noqa
+            import syne_tune.optimizer.schedulers.searchers.hypertune  # noqa
+            import syne_tune.optimizer.schedulers.searchers.dyhpo  # noqa
+        except Exception:
+            pass
 
 
 def repo_revision():
